@@ -109,7 +109,28 @@ ON_END = dict(
     cover=["return"],
 )
 
-CONTRACTS = [UPD_START, UPD_END, EXIT, ON_START, ON_END]
+INIT_CTX = dict(
+    target="esrally/client/context.py::RequestContextHolder.init_request_context",
+    prop="C18",
+    params={"cls": "obj[RequestContextHolder]"},
+    ghost_state=GHOST,
+    externals=dict(EXT, **{
+        # ContextVar.set(v): binds v in the current task and returns a token that remembers the previous binding
+        "cls.request_context.set": dict(returns="obj[Token]", ghost_update=("$ctx", "a0"), ensures=["not isnone(result)"]),
+    }),
+    locals={"ctx": CTX},
+    fields=FIELDS,
+    returns=f"tuple[{CTX},obj[Token]]",
+    ensures=[
+        # every (sub-)request context starts EMPTY: its timing covers exactly the requests issued inside it, nothing inherited from the parent
+        "not has(result[0], 'request_start') and not has(result[0], 'request_end') and not has(result[0], 'raw_response')",
+        # it is a new record (not the parent's) and it is now the one bound in this task
+        "ref(result[0]) >= NREF0() and ref($ctx) == ref(result[0])",
+    ],
+    cover=["return"],
+)
+
+CONTRACTS = [UPD_START, UPD_END, EXIT, ON_START, ON_END, INIT_CTX]
 ASSUMPTIONS = [
     "contextvars semantics: ContextVar.get() returns the dict bound in the current asyncio task; reset(token) re-binds token.old_value; each task has its own binding while dict objects are shared by reference (this is what keeps different clients apart: every read/write goes through request_context.get())",
     "exact-real arithmetic for perf_counter values",
